@@ -1242,7 +1242,7 @@ class DocutilsRenderer(RendererProtocol):
         if isinstance(token.content, str):
             try:
                 data = yaml.safe_load(token.content)
-            except (yaml.YAMLError, ValueError):
+            except (yaml.YAMLError, ValueError, RecursionError):
                 self.create_warning(
                     "Malformed YAML",
                     MystWarnings.MD_TOPMATTER,
